@@ -29,6 +29,15 @@ impl FileSystemState {
             artifact_directory.to_path_buf(),
         ));
 
+        if state.nested_files.is_empty() {
+            // Creating the directory of a nested artifact re-creates the artifact directory as
+            // well. Without nested artifacts (e.g. a project that does not define any client
+            // fields yet), it has to be re-created explicitly for the root files.
+            operations.push(FileSystemOperation::CreateDirectory(
+                artifact_directory.to_path_buf(),
+            ));
+        }
+
         for (new_server_object_entity_name, new_selectable_map) in &state.nested_files {
             let new_server_object_path = artifact_directory.join(new_server_object_entity_name);
 
